@@ -790,8 +790,10 @@ func (b *UnsafeLinkBuffer) indexByte(c byte, skip int) int {
 func (b *UnsafeLinkBuffer) recalLen(delta int) (length int) {
 	if delta < 0 && len(b.cachePeek) > 0 {
 		// b.cachePeek will contain stale data if we read out even a single byte from buffer,
-		// so we need to reset it or the next Peek call will return invalid bytes.
-		b.cachePeek = b.cachePeek[:0]
+		// so the next Peek call must not return it. The bytes already handed out stay valid
+		// until Release, so the block is parked in caches instead of being reused in place.
+		b.caches = append(b.caches, b.cachePeek)
+		b.cachePeek = nil
 	}
 	return int(atomic.AddInt64(&b.length, int64(delta)))
 }
